@@ -479,16 +479,17 @@ def run_case(c):
         # constructors: two graphs built from the same caller-owned lists; an in-place operation on one must not reach the other
         try:
             from pytenet.opgraph import OpGraph, OpGraphNode, OpGraphEdge
-            term = [0, 2]; nids01 = [0, 1]; opics = [(1, 1.0)]
+            term = [0, 2]; nids01 = [0, 1]; opics = [(1, 1.0)]; e_in = []; e_out = []
             def build():
-                g_ = OpGraph([OpGraphNode(0, [], [], 0), OpGraphNode(1, [], [], 0), OpGraphNode(2, [], [], 0)], [], term)
+                # the edge-id tables of node 0 are caller-owned lists shared by both graphs (the node constructor has to copy them)
+                g_ = OpGraph([OpGraphNode(0, e_in, e_out, 0), OpGraphNode(1, [], [], 0), OpGraphNode(2, [], [], 0)], [], term)
                 g_.add_connect_edge(OpGraphEdge(0, nids01, opics))
                 g_.add_connect_edge(OpGraphEdge(1, [1, 2], opics))
                 return g_
             ga, gb = build(), build()
             ga.flip()
             ga.rename_node_id(1, 7)
-            if term != [0, 2] or nids01 != [0, 1] or opics != [(1, 1.0)] or list(gb.nid_terminal) != [0, 2] or sorted(gb.nodes) != [0, 1, 2] \
+            if term != [0, 2] or nids01 != [0, 1] or opics != [(1, 1.0)] or e_in != [] or e_out != [] or list(gb.nid_terminal) != [0, 2] or sorted(gb.nodes) != [0, 1, 2] \
                     or list(gb.edges[0].nids) != [0, 1] or not gb.is_consistent():
                 k.fails.append(dict(clause='shares_state', detail='OpGraph / OpGraphEdge constructors keep the caller\'s lists: flip() / rename_node_id() on one graph changed '
                                     f'the arguments or a second graph built from them (term={term}, nids={nids01}, second graph terminals {list(gb.nid_terminal)})',
